@@ -309,12 +309,53 @@ def w_5060(arg):
     return acc.res()
 
 
+def constructed_5060():
+    """payloads that are valid BDS 5,0 *and* BDS 6,0 with every velocity field available, Mach/IAS consistent at the
+    reference altitude; each paired with references equal to its 5,0 reading and to its 6,0 reading."""
+    out = []
+    for alt in (5000, 20000, 35000):
+        for mraw in (100, 150, 200):
+            mach = mraw * 2.048 / 512
+            ias = int(round(I.mach2cas(mach, alt * I.FT) / I.KTS))
+            if not (0 < ias < 1024):
+                continue
+            for sign in (0, 1):
+                for rraw in ((10, 100, 250) if sign == 0 else (262, 400, 500)):
+                    mb = BR.bit(1) | BR.field(2, 1, sign) | BR.field(3, 9, rraw) | BR.bit(12) | BR.bit(13) | \
+                        BR.field(14, 10, ias) | BR.bit(24) | BR.field(25, 10, mraw)
+                    gs, trk = mraw * 2, ((ias - 1024) * 90 / 512.0) % 360
+                    hraw = rraw * 2 + 1
+                    hdg = ((hraw - 1024 if sign else hraw) * 90 / 512.0) % 360
+                    tas = I.mach2tas(mach, alt * I.FT) / I.KTS
+                    out.append((mb, gs, trk, alt))
+                    out.append((mb, tas, hdg, alt))
+    return out
+
+
+def w_5060c(_):
+    acc = Acc()
+    nwin = 0
+    for i, (mb, spd, trk, alt) in enumerate(constructed_5060()):
+        msg = carrier(mb, i, df=21)
+        acc.n += 1
+        if winner(msg, spd, trk, alt):
+            nwin += 1
+        s = judge("5060", (msg, spd, trk, alt))
+        if s:
+            acc.bad(s, {"kind": "5060", "p": [msg, spd, trk, alt]})
+        acc.out.add(("5060c", mb, round(spd), round(trk)))
+    acc.c["is50or60_cases_with_decidable_winner"] = nwin
+    return acc.res()
+
+
 def w_any(t):
+    if t[0] == "y":
+        return w_5060c(None)
     return {"t": w_total, "s": w_sound, "c": w_complete, "g": w_gate, "x": w_5060}[t[0]](t[1])
 
 
 def run(ctx):
-    tasks = [("t", [df]) for df in range(32)] + [("g", None)]
+    tasks = [("t", [df]) for df in range(32)] + [("g", None), ("y", None)]
     tasks += [("s", c) for c in chunks(sound_cases(), 60)]
     amb = []
     for reg in REGS:
